@@ -9,18 +9,28 @@ RULE = ("exhaustive (bare ModList): every assignment of {sync ok, sync fail, com
         "ModList / baseapp.App via LaunchAppWithMode / unprepared App / node App via StartNode, two thirds of the histories "
         "well behaved (sync, later, failing, panicking-after-next modules; completions aimed at the module that is waiting), "
         "one third adversarial (double/triple next, panic before next, stale and out-of-range completions, repeated "
-        "Start/Stop); builtin: 20 fixed scenarios x the real Welcome/ActorSystem/Cluster modules (self cluster, "
-        "StartMember failure = F5 path, remote listen failure, nil node info, stop paths). Non-trivial = at least one "
-        "module Start/Stop was entered; distinct = distinct op lists.")
+        "Start/Stop), 30% of the App/node histories in cluster mode against the in-process etcd stand-in with 0-2 failing etcd "
+        "operations; builtin: 77 fixed scenarios x the real Welcome/ActorSystem/Cluster modules: self cluster, remote listen "
+        "failure, nil node info, stop paths, and cluster mode with every step of ClusterModule.Start/Stop failing in turn "
+        "(NewWithConfig, init, fetch Get / undecodable listing, watch stream, lease Grant, register Put, keep-alive Grant / Put / "
+        "expired lease, deregister Delete) in node, App and bare-list mode incl. Stop after a failed Start, Start twice, Stop "
+        "twice, several faults at once, two cluster modules. Non-trivial = at least one module Start/Stop was entered; "
+        "distinct = distinct op lists.")
 TRUSTED_BASE = [
     "Coq 8.16.1 kernel + vm_compute (case evaluation, Examples); no native_compute",
     "hand translation baseapp/module/modulelist.go (Filter/Start/Stop), baseapp/app.go (Start/Stop/Cleanup), "
-    "node/modules/{welcome,actor,cluster} Start/Stop -> C11/Model.v, measured by this correspondence run on every case",
+    "node/modules/{welcome,actor,cluster} Start/Stop with etcd.Provider.StartMember/Shutdown inlined -> C11/Model.v, "
+    "measured by this correspondence run on every case",
     "Go harness harness/c11 (recording wrapper modules; run ids attributed by the harness from the call in progress; "
-    "each operation executed on its own goroutine and joined; 4 s watchdog), bin/check.py JSON->Coq term printer",
+    "each operation executed on its own goroutine and joined; 3 s watchdog), bin/check.py JSON->Coq term printer",
+    "harness/c11/etcdfake.go: gRPC stand-in for etcd (KV Range/Put/DeleteRange, Lease Grant/Revoke/KeepAlive, Watch) that the "
+    "module's REAL clientv3 client dials via cluster.yaml's ETCDServer; faults are injected server-side per connection as "
+    "non-retryable etcd errors (ResourceExhausted), a cancelled watch, an expired lease, an undecodable value; "
+    "NewWithConfig failure = an endpoint grpc cannot parse",
     "modelled not verified: sync.RWMutex of ModList (operations are sequential in the harness), RunService/timers, "
-    "etcd (only the offline failure path of StartMember is exercised; NewWithConfig failure and StartMember success are "
-    "model-only), protoactor remote (listen success / EADDRINUSE), provider.Shutdown assumed to return",
+    "what the watch / keep-alive goroutines do after their failure (they cannot reach next; driven, not observed), "
+    "an etcd endpoint nobody listens on (the first Get does not return within the watchdog; model: fetch fails), "
+    "protoactor remote (listen success / EADDRINUSE), provider.Shutdown assumed to return",
 ]
 ASSUMPTIONS = [
     "the module list is not changed once Start or Stop has been called (AddModule during a run is outside the model)",
@@ -31,7 +41,8 @@ ASSUMPTIONS = [
     "ActorSystemModule.Stop reports once provided its actor system exists and is not shut down, ClusterModule.Stop provided "
     "its own Start did not fail inside StartMember's init (both true under the App guard: Stop only after every Start "
     "succeeded; a bare ModList.Stop after a failed Start panics inside these Stops and never calls next - observed on the "
-    "real code and modelled as such)",
+    "real code and modelled as such); the monitor exempts exactly the calls entered without that precondition "
+    "(Spec.unclaimed, computed from the implementation's own entries) and counts one next per call everywhere else",
     "the launch mode's PrepareModules adds the modules once (LaunchAppWithMode calls it before the state guard)",
     "hooks/C11-fix-cluster-start-return.patch and hooks/C11-fix-actor-start-listen-panic.patch are applied to the repo under test",
 ]
@@ -41,7 +52,8 @@ TECHNIQUE = ("Coq proof (work-list semantics of the continuation machine; per-ru
 LEVEL_TEXT = ("Machine-checked Coq theorems, unbounded in module lists, behaviours, histories and orders of delayed completions: "
               "start order / first failure / finish exactly once / exact reverse stop order under the at-most-once resp. "
               "exactly-once hypothesis, unconditional accounting and no-double-entry theorems, App state guards, one next() on "
-              "every path of every shipped module (repaired code). The model is tied to the Go code by running both on the same "
+              "every path of every shipped module (repaired code) with the fault point of every step explicit (cluster: NewWithConfig, "
+              "init, fetch, watch, register, keep-alive, deregister). The model is tied to the Go code by running both on the same "
               "histories each run (events must be identical) and by evaluating the theorem statements on the implementation's own traces.")
 
 
